@@ -76,7 +76,7 @@ type hw struct {
 	contracts [][]byte
 	active    map[string]bool
 	erc20     map[string]string
-	keyVer    map[int]int // validator index -> eth key version
+	keyVer    map[int]int                 // validator index -> eth key version
 	regChains map[int]map[string][]string // validator -> chain -> traits (what it last registered)
 
 	// monitor state
@@ -90,6 +90,7 @@ type hw struct {
 	stepNo      int
 	lastOp      string
 	curChain    string // chain whose key pigeons sign with in the current operation
+	sampled     map[string]bool
 	lateIdx     int // validator that brings its pigeon up late (-1: none)
 }
 
@@ -200,7 +201,7 @@ func pick[T any](r *rand.Rand, s []T) T { return s[r.Intn(len(s))] }
 func newHW(cs fw.Case, p params, rec *fw.Recorder) (*hw, error) {
 	r := cs.Rand()
 	w := &hw{rec: rec, r: r, jobs: map[jobKey]string{}, active: map[string]bool{}, erc20: map[string]string{}, keyVer: map[int]int{},
-		regChains: map[int]map[string][]string{}, prevQ: map[string][]qItem{}, prevBatches: map[string]batchInfo{}, rtx: map[uint64]*world.RemoteTx{}, vidx: map[string]int{}}
+		regChains: map[int]map[string][]string{}, prevQ: map[string][]qItem{}, prevBatches: map[string]batchInfo{}, rtx: map[uint64]*world.RemoteTx{}, vidx: map[string]int{}, sampled: map[string]bool{}}
 	stakes := make([]int64, p.NVals)
 	for i := range stakes {
 		stakes[i] = int64(10+r.Intn(4)*10) * 1_000_000
